@@ -646,6 +646,11 @@ def check(db, rep):
     own_log(db, r6)
     r7 = rep.rule('r7', 'DUMP-SAFE: results that echo the analysed text are serialised with a non-throwing UTF-8 error handler', 3)
     dump_safe(db, r7)
+    r8 = rep.rule('r8', 'FOREIGN-TEXT / TERMINATION: nodes inlined from a function definition carry the position of the call; the type deduction of a recursion is bounded and every typing rule rejects instead of faulting (shared with C03 r9)', 18)
+    inline_positions(db, r8)
+    C03.recursion_typing(db, r8)
+    # the typing rules reject instead of faulting (an invalid projection index, a logical operand, ...): shared with C03 r9
+    C03.typing_rules(db, r8, rep.tier)
     r4 = rep.rule('r4', 'NO-ESCAPE: every throwing accessor in the analysis code is guarded, in a try block, or decided by another rule', 100)
     no_escape(db, r4, rep)
 
@@ -846,3 +851,32 @@ def dump_safe(db, rule):
             else:
                 rule.violation(inst, f.loc(c), 'the result is serialised with the default (strict) error handler: an expression that is not valid UTF-8 makes dump() throw json type_error.316 out of the analysis entry point')
     return n
+
+
+def inline_positions(db, rule):
+    """every node of a function body inlined at a call is given the position of the call: the body comes from another text (the definition of the
+    function), so its own offsets do not lie in the input and evaluation errors raised inside it would be reported outside the expression"""
+    N = R + 'Normalizer'
+    f = db.fn(N + '::SubstituteArgs', required=False)
+    fn = db.fn(N + '::Function', required=False)
+    if f is None or fn is None:
+        rule.broken('anchor vanished: Normalizer::SubstituteArgs / Function')
+        return
+    node_param = f.rec['params'][0]
+    writes = []
+    for x in f.walk():
+        if x['k'] in ('BinaryOperator', 'CXXOperatorCallExpr') and x.get('op') == '=':
+            kids = f.children(x) if x['k'] == 'BinaryOperator' else [f.stmts[a] for a in x.get('args', [])]
+            l = f.strip(kids[0]) if kids else None
+            if l is not None and l['k'] == 'MemberExpr' and l.get('member') == 'pos' and any(y['k'] == 'DeclRefExpr' and y.get('did') == node_param['did'] for y in f.walk(l)):
+                rhs_param = any(y['k'] == 'DeclRefExpr' and y.get('dk') == 'param' and y.get('did') != node_param['did'] for y in f.walk(kids[1]))
+                writes.append((f.position_of(x), rhs_param, x))
+    succ, entry, exit_ = f.graph()
+    exits = [(p, '') for p, r in f.return_sites()] + [(exit_, '')]
+    good = [w for w in writes if w[0] is not None and w[1]]
+    recursive = any(c.get('cs') == N + '::SubstituteArgs' for c in f.calls())
+    passes = [c for c in fn.calls() if c.get('cs') == N + '::SubstituteArgs' and len(c.get('args', [])) >= 2 and 'pos' in fn.stmts[c['args'][1]].get('txt', '')]
+    if good and not paths_avoiding(f, [entry], [w[0] for w in good], exits) and recursive and passes:
+        rule.ok('SubstituteArgs:positions', 'every node of the inlined body is stamped with the position of the call, on every path, before descending', f.loc(good[0][2]))
+    else:
+        rule.violation('SubstituteArgs:positions', '%s:%d' % (f.file, f.line), 'not every node of an inlined function body receives the position of the call: nodes keep offsets of the function definition text, and errors raised while evaluating them are reported outside the input')
